@@ -302,7 +302,7 @@ def writeArray (c : Codec) (sh : List Nat) (el : List Atom) : Except Err H5 :=
 
 /-- `_write_list` on a list `np.array` accepts -/
 def writeListC (c : Codec) (sh : List Nat) (el : List Atom) : Except Err H5 :=
-  match Rsa.Gen.C16.listDispatch 0 0 (b2n (!el.all Atom.isNum && el.all Atom.isStr)) with
+  match Rsa.Gen.C16.listDispatch 0 0 0 (b2n (!el.all Atom.isNum && el.all Atom.isStr)) with
   | 1 => writeArray c sh el      -- `<U`: np.char.encode
   | 2 => writeArray c sh el      -- raw
   | _ => .error .typeError
@@ -328,9 +328,12 @@ def itemC (c : Codec) (v : Val) (sub : Except Err H5) : Except Err H5 :=
   | 4 => if v.isDict then sub else .error .typeError          -- dict: sub-group
   | 3 =>
       if v.isDict then
-        -- a list numpy refuses (TypeError for an object array, ValueError for a ragged
-        -- one): both must be caught for the per-element group to be written
-        (if Rsa.Gen.C16.listDispatch 1 0 0 == 3 && Rsa.Gen.C16.listDispatch 0 1 0 == 3
+        -- a list that is no array: h5py's TypeError for an object array (entries that are
+        -- None), numpy's ValueError for a ragged one, or an object-dtype array numpy built without
+        -- complaint (entries that are equal-length object arrays): all three must reach the
+        -- except clause for the per-element group to be written
+        (if Rsa.Gen.C16.listDispatch 1 0 0 0 == 3 && Rsa.Gen.C16.listDispatch 0 1 0 0 == 3
+            && Rsa.Gen.C16.listDispatch 0 0 1 0 == 3
          then sub else .error .unstorable)
       else encodeLeafC c v
   | _ => if v.isDict then .error .typeError else encodeLeafC c v
@@ -615,20 +618,11 @@ def modelFromDict (d : Val) : Except Err Val := do
   let name ← req d "name"
   match asName ty with
   | some "Model" => pure (mkModel ty name .none)
-  | some "ModelFixed" =>
-      if !(truthy rdm) then .error .unbound
-      else do
-        -- `ModelFixed.__init__` resets the pattern index of the RDMs it is given
-        let pd ← req rdm "pattern_descriptors"
-        let dis ← req rdm "dissimilarities"
-        match dis with
-        | .tens _ [_, np] _ =>
-            let nc := Rsa.Gen.C16.nFromReduced np
-            let rdm' := rdm.set "pattern_descriptors" (pd.set "index" (arange .nd nc))
-            pure (mkModel ty name rdm')
-        | _ => .error .badShape
   | some tyname =>
-      if tyname = "ModelSelect" || tyname = "ModelWeighted" || tyname = "ModelInterpolate" then
+      -- (`ModelFixed.__init__` keeps the RDMs object it is given as it is, `index` included,
+      --  since /repo 2a099633; it used to overwrite the pattern index with `arange`)
+      if tyname = "ModelFixed" || tyname = "ModelSelect" || tyname = "ModelWeighted"
+          || tyname = "ModelInterpolate" then
         if !(truthy rdm) then .error .unbound
         else pure (mkModel ty name rdm)
       else .error .unbound
@@ -716,7 +710,17 @@ structure Target where
   isPath : Bool
   id : Nat
   name : String := ""       -- the file name of a path target (only its ending matters)
+  /-- how a path target is handed over: `true` a `str`, `false` any other path object
+      (`pathlib.Path`, another `os.PathLike`, a `bytes` path).  Not part of the file's identity:
+      `FS.lookup` goes by `id` / `isPath` only, so the same file can be addressed either way. -/
+  asStr : Bool := true
   deriving DecidableEq, Repr
+
+/-- `isinstance(fhandle, str)`: what the existence guard of `write_dict_hdf5` and the suffix rules of
+    the loaders test.  A path that is no `str` takes the *same route as an open handle* there:
+    no guard (h5py's `File(…, 'a')` opens the existing file and the first member whose name is
+    taken is refused by h5py itself), no auto-detection of the file type. -/
+def Target.isStr (t : Target) : Bool := t.isPath && t.asStr
 
 inductive Content where
   | h5 (t : H5)
@@ -757,7 +761,13 @@ def dictAfter (ft : FType) (d : Val) : Val :=
     * pickle behind pickles: `pickle.dump` writes at the cursor, which is behind the first
       pickle (after a save: the end; after a load from the start: the end of the first
       pickle), so the first pickle — what every loader reads — stays;
-    * a file of the other type: no claim (`unspecified`). -/
+    * a file of the other type: no claim (`unspecified`).
+
+    A *path* that is not a `str` (`pathlib.Path`, `os.PathLike`, `bytes`) passes the guard as coded
+    (`isinstance(fhandle, str)`) and takes the same HDF5 route as a used handle: append mode opens
+    the existing file, `_write_to_group` merges, h5py refuses the first member whose name is
+    taken.  Pickle (repaired behaviour, see notes "pathlike-target"): every path is opened
+    `'wb'`. -/
 def writeDictWith (enc item : Val → Except Err H5) (guard : Bool → Bool → Bool)
     (fs : FS) (t : Target) (ft : FType) (remove : Bool) (d : Val) : FS × Option Err :=
   let fs1 := if remove then FS.erase fs t else fs
@@ -765,14 +775,18 @@ def writeDictWith (enc item : Val → Except Err H5) (guard : Bool → Bool → 
   | .hdf5 =>
       match FS.lookup fs1 t with
       | some old =>
-          if guard t.isPath true then (fs1, some .fileExists)       -- nothing is touched
+          if guard t.isStr true then (fs1, some .fileExists)        -- nothing is touched
           else match old with
             | .h5 g =>
                 match writeInto item g d with
                 | (g', Option.none) => (FS.put fs1 t (.h5 g'), Option.none)
                 | (g', some .nameExists) => (FS.put fs1 t (.h5 g'), some .nameExists)
                 | (_, some e) => (FS.put fs1 t .dirty, some e)
-            | _ => (FS.put fs1 t .dirty, some .unspecified)
+            | .pkl _ =>
+                -- `File(path, 'a')` on an existing file that is no HDF5 file: h5py refuses to open
+                -- it, nothing is touched (a handle holding pickles: no claim)
+                if t.isPath then (fs1, some .badFile) else (FS.put fs1 t .dirty, some .unspecified)
+            | .dirty => (FS.put fs1 t .dirty, some .unspecified)
       | Option.none =>
           match enc d with
           | .ok tree => (FS.put fs1 t (.h5 tree), Option.none)
@@ -785,7 +799,8 @@ def writeDictWith (enc item : Val → Except Err H5) (guard : Bool → Bool → 
         | some (.pkl (d0 :: rest)) => (FS.put fs1 t (.pkl (d0 :: (rest ++ [d']))), Option.none)
         | some _ => (FS.put fs1 t .dirty, some .unspecified)
 
-/-- the specification: guard = "a path that exists" -/
+/-- the specification: guard = "a `str` path that exists" (for a path handed over as another
+    object the refusal is h5py's own: `no_overwrite_guard_pathlike`) -/
 def writeDict (c : Codec) (fs : FS) (t : Target) (ft : FType) (overwrite : Bool) (d : Val) :
     FS × Option Err :=
   writeDictWith (encode c) (encodeItem c) (fun isStr ex => isStr && ex) fs t ft overwrite d
@@ -812,7 +827,7 @@ def detectType (k : Kind) (t : Target) (ft : Option FType) : Except Err FType :=
   match ft with
   | some f => .ok f
   | Option.none =>
-      if t.isPath then
+      if t.isStr then
         match detectCode k t.name with
         | 1 => .ok .pkl
         | 2 => .ok .hdf5
